@@ -1096,3 +1096,153 @@ func c12R13(ic *IC, r *Report) {
 		r.Pass("R12.13", "itype.convertibleTo/no-kind-shortcut-without-unsafe.Pointer", ic.pos(fi.Decl.Pos()), fmt.Sprintf("%d guarded acceptances evaluated under 3 kind scenarios", nIf/len(scenarios)))
 	}
 }
+
+func init() {
+	ruleText["R12.15"] = "every node kind the AST builder gives to a binary operator (binaryExpr, and the kinds of && and ||) has a post-order case in cfg that calls a method of typecheck before wiring its operands: no operator reaches execution with operands of a type it is not defined on"
+}
+
+// c12R15: the && and || cases of cfg wired their operands without any type check (found D78:
+// `x := 1; _ = x && x` ran and panicked in reflect).
+func c12R15(ic *IC, r *Report) {
+	info := ic.Info
+	astFi := ic.fn(r, "Interpreter.ast")
+	cfgFi := ic.fn(r, "Interpreter.cfg")
+	if astFi == nil || cfgFi == nil {
+		return
+	}
+	// kinds assigned in the BinaryExpr case of the AST builder
+	kinds := map[types.Object]bool{}
+	ast.Inspect(astFi.Decl.Body, func(m ast.Node) bool {
+		cc, ok := m.(*ast.CaseClause)
+		if !ok || len(cc.List) != 1 {
+			return true
+		}
+		if t := info.TypeOf(cc.List[0]); t == nil || types.TypeString(t, nil) != "*go/ast.BinaryExpr" {
+			return true
+		}
+		ast.Inspect(cc, func(k ast.Node) bool {
+			id, ok := k.(*ast.Ident)
+			if !ok {
+				return true
+			}
+			if c, ok := info.Uses[id].(*types.Const); ok && isNamed(c.Type(), "nkind") {
+				kinds[c] = true
+			}
+			return true
+		})
+		return false
+	})
+	if len(kinds) < 3 {
+		r.Errorf("R12.15: only %d node kinds found in the BinaryExpr case of the AST builder (binaryExpr, landExpr, lorExpr expected)", len(kinds))
+		return
+	}
+	var names []string
+	byName := map[string]types.Object{}
+	for k := range kinds {
+		names = append(names, k.Name())
+		byName[k.Name()] = k
+	}
+	sort.Strings(names)
+	for _, name := range names {
+		kobj := byName[name]
+		checked := false
+		var at token.Pos = cfgFi.Decl.Pos()
+		found := false
+		ast.Inspect(cfgFi.Decl.Body, func(m ast.Node) bool {
+			cc, ok := m.(*ast.CaseClause)
+			if !ok {
+				return true
+			}
+			is := false
+			for _, l := range cc.List {
+				if id := identOf(l); id != nil && info.ObjectOf(id) == kobj {
+					is = true
+				}
+			}
+			if !is {
+				return true
+			}
+			// the post-order case wires successors (tnext / setFNext / wireChild)
+			post := len(callsIn(info, cc, true, "interp.setFNext", "interp.wireChild")) > 0
+			if !post {
+				return true
+			}
+			found = true
+			at = cc.Pos()
+			for _, c := range allCalls(cc) {
+				if f, ok := calleeOf(info, c).(*types.Func); ok {
+					if sg := f.Type().(*types.Signature); sg.Recv() != nil && isNamed(sg.Recv().Type(), "typecheck") {
+						checked = true
+					}
+				}
+			}
+			return true
+		})
+		if !found {
+			r.Errorf("R12.15: no post-order case of cfg for node kind %s", name)
+			continue
+		}
+		r.Check(checked, "R12.15", "cfg/case:"+name+"/operands-type-checked", ic.pos(at), "the operator's operands are type-checked before being wired",
+			"the "+name+" case of cfg wires the operands of its operator without calling any method of typecheck: an operand of a type the operator is not defined on (x && x with x an int) is compiled, the program starts running, and fails in reflect when the expression is reached")
+	}
+}
+
+func init() {
+	ruleText["R12.16"] = "the send statement case of cfg consults the direction of the channel (a predicate reading reflect.RecvDir or the receive-only category) and type-checks the sent value (a method of typecheck): a send on a receive-only channel or of a value of another type is a static error"
+}
+
+// c12R16: found D79 ("wrong channel direction" is a class the property names).
+func c12R16(ic *IC, r *Report) {
+	info := ic.Info
+	cfgFi := ic.fn(r, "Interpreter.cfg")
+	if cfgFi == nil {
+		return
+	}
+	sendK, _ := ic.Pk.Types.Scope().Lookup("sendStmt").(*types.Const)
+	n := 0
+	ast.Inspect(cfgFi.Decl.Body, func(m ast.Node) bool {
+		cc, ok := m.(*ast.CaseClause)
+		if !ok || len(cc.List) != 1 {
+			return true
+		}
+		if id := identOf(cc.List[0]); id == nil || sendK == nil || info.ObjectOf(id) != sendK {
+			return true
+		}
+		n++
+		dir, typed := false, false
+		for _, c := range allCalls(cc) {
+			f, ok := calleeOf(info, c).(*types.Func)
+			if !ok {
+				continue
+			}
+			if sg := f.Type().(*types.Signature); sg.Recv() != nil && isNamed(sg.Recv().Type(), "typecheck") {
+				typed = true
+			}
+			if sg := f.Type().(*types.Signature); f.Pkg() == ic.Pk.Types && sg.Results().Len() == 1 && types.Identical(sg.Results().At(0).Type(), types.Typ[types.Bool]) {
+				if hd := ic.G.Funcs[f]; hd != nil && hd.Decl.Body != nil {
+					ast.Inspect(hd.Decl.Body, func(k ast.Node) bool {
+						switch x := k.(type) {
+						case *ast.SelectorExpr:
+							if x.Sel.Name == "RecvDir" {
+								dir = true
+							}
+						case *ast.Ident:
+							if x.Name == "chanRecvT" {
+								dir = true
+							}
+						}
+						return true
+					})
+				}
+			}
+		}
+		r.Check(dir, "R12.16", "cfg/case:sendStmt/channel-direction-checked", ic.pos(cc.Pos()), "a send on a receive-only channel is rejected",
+			"the sendStmt case of cfg never consults the direction of the channel: c <- v with c of type <-chan T is compiled, the program starts and panics in reflect (send on recv-only channel)")
+		r.Check(typed, "R12.16", "cfg/case:sendStmt/sent-value-type-checked", ic.pos(cc.Pos()), "the sent value is checked against the element type",
+			"the sendStmt case of cfg does not type-check the sent value against the channel's element type: c <- \"a\" on a chan int, or c <- 200 on a chan int8, is compiled and fails or wraps at run time")
+		return true
+	})
+	if n == 0 {
+		r.Errorf("R12.16: no sendStmt case found in cfg")
+	}
+}
